@@ -85,6 +85,19 @@ func (h *History) branchTags(before, after *Snap, op *Op, res string) {
 			if b != nil && b.Session != "" {
 				h.tag(op.KV.Verb + ":on-locked-key")
 			}
+			if b != nil && string(b.Value) == string(op.KV.Val) && b.Flags == op.KV.Flags && b.LockIndex == op.KV.LockIdx &&
+				(op.KV.Verb == "set" || op.KV.ModIdx == b.ModifyIndex) {
+				switch {
+				case op.KV.Session == b.Session:
+					h.tag(op.KV.Verb + ":identical-rewrite:session-field=holder")
+				case op.KV.Session == "":
+					h.tag(op.KV.Verb + ":identical-rewrite:locked-key-empty-session-field")
+				case b.Session == "":
+					h.tag(op.KV.Verb + ":identical-rewrite:unlocked-key-stray-session-field")
+				default:
+					h.tag(op.KV.Verb + ":identical-rewrite:locked-key-other-session-field")
+				}
+			}
 		case "delete-tree":
 			if len(after.T.KVs) < len(before.T.KVs) {
 				h.tag(fmt.Sprintf("delete-tree:removed-%d", min(len(before.T.KVs)-len(after.T.KVs), 3)))
